@@ -93,6 +93,7 @@ func (a *Atom) Sig() string {
 
 // Unit is one analysed body: a declared function or a function literal inside one.
 type Unit struct {
+	earlyWrappers map[*ast.IfStmt]bool // `if C { return ok }` merged into the checks that follow it
 	foldedLits    map[*ast.FuncLit]bool     // predicate literals folded into the leaf of their element-predicate call
 	wrapperOfStmt map[ast.Node]*conjWrapper // statement -> the wrapper whose body it belongs to
 	wrapperList   []*conjWrapper
@@ -972,10 +973,29 @@ type conjWrapper struct {
 	at     ast.Node
 	pos    token.Pos
 	inner  []ast.Expr // leaves of the checks inside
+	hi     token.Pos  // end of the guarded region when it extends beyond node (early-return form)
+}
+
+func (w *conjWrapper) span() (token.Pos, token.Pos) {
+	if w.hi != token.NoPos {
+		return w.node.Pos(), w.hi
+	}
+	return w.node.Pos(), w.node.End()
 }
 
 func (w *conjWrapper) encloses(o *conjWrapper) bool {
-	return w.node.Pos() <= o.node.Pos() && o.node.End() <= w.node.End() && w.node != o.node
+	wl, wh := w.span()
+	ol, oh := o.span()
+	return wl <= ol && oh <= wh && w.node != o.node
+}
+
+func containsStr(xs []string, s string) bool {
+	for _, x := range xs {
+		if x == s {
+			return true
+		}
+	}
+	return false
 }
 
 func leafExprs(ls []leafInfo) []ast.Expr {
@@ -1028,30 +1048,50 @@ func (u *Unit) conjWrappersOf(cond ast.Expr) []*conjWrapper {
 	return out
 }
 
+// enableWrappers: merging `if A { <only failing checks> }` into its checks as a conjunct (so that `A && B → fail`,
+// `if A { if B { fail } }` and `switch x { case c: if B { fail } }` have one inventory) is implemented but switched
+// off: it made the classification of an `if` depend on whether the statements under it had been extracted into a
+// helper (a mode `if` around a block of mixed statements became a "wrapper" once the block was one helper call),
+// which is the more common refactoring of the two (DESIGN section 10).
+const enableWrappers = false
+
 func (u *Unit) buildWrappers() {
 	u.wrapperOfStmt = map[ast.Node]*conjWrapper{}
 	u.failingIfs = map[*ast.IfStmt]bool{}
 	u.switchOfCase = map[*ast.CaseClause]*ast.SwitchStmt{}
+	u.earlyWrappers = map[*ast.IfStmt]bool{}
+	if !enableWrappers {
+		return
+	}
 	allFailing := func(list []ast.Stmt) bool {
 		if len(list) == 0 {
 			return false
 		}
+		nIf := 0
 		for _, st := range list {
 			if !u.isFailingIf(st) {
 				// a nested wrapper is fine too
 				if is, ok := st.(*ast.IfStmt); ok && is.Else == nil && u.wrapperBody(is.Body.List) {
+					nIf++
+					continue
+				}
+				// `x, err := f(); if err != nil {…}` is the two-statement form of `if x, err := f(); err != nil {…}`
+				if u.localAssign(st) {
 					continue
 				}
 				return false
 			}
+			nIf++
 		}
-		return true
+		return nIf > 0
 	}
 	ast.Inspect(u.Body, func(n ast.Node) bool {
 		if lit, ok := n.(*ast.FuncLit); ok && lit != u.Lit {
 			return false
 		}
 		switch x := n.(type) {
+		case *ast.BlockStmt:
+			u.earlyReturnWrappers(x, allFailing)
 		case *ast.IfStmt:
 			if u.isFailingIf(x) {
 				u.failingIfs[x] = true
@@ -1099,6 +1139,92 @@ func (u *Unit) buildWrappers() {
 		}
 		return true
 	})
+}
+
+// earlyReturnWrappers: `if C { return <success> }` followed, to the end of the block, only by failing checks (and a
+// final success return) is `if !C { checks }`: the negation of C is a conjunct of those checks.
+func (u *Unit) earlyReturnWrappers(bs *ast.BlockStmt, allFailing func([]ast.Stmt) bool) {
+	for k, st := range bs.List {
+		is, ok := st.(*ast.IfStmt)
+		if !ok || is.Else != nil || is.Init != nil || len(is.Body.List) != 1 || u.isFailingIf(is) {
+			continue
+		}
+		if _, isRet := is.Body.List[0].(*ast.ReturnStmt); !isRet {
+			continue
+		}
+		if b := u.BlockOf(is.Body.List[0]); b == nil || u.FR[b] {
+			continue
+		}
+		rest := bs.List[k+1:]
+		if n := len(rest); n > 0 {
+			if _, isRet := rest[n-1].(*ast.ReturnStmt); isRet {
+				rest = rest[:n-1]
+			}
+		}
+		if !allFailing(rest) {
+			continue
+		}
+		if t := u.Info.TypeOf(is.Cond); t == nil || !isBoolType(t) {
+			continue
+		}
+		var ls []leafInfo
+		splitLeaves(is.Cond, false, &ls)
+		if len(ls) > 1 && len(ls[0].conj) == 0 {
+			continue
+		}
+		var leaves []ast.Expr
+		okAll := true
+		for _, l := range ls {
+			if l.failTrue {
+				leaves = append(leaves, l.expr)
+				continue
+			}
+			// a comparison that must be false is the flipped comparison that must be true
+			be, isBin := ast.Unparen(l.expr).(*ast.BinaryExpr)
+			flip := map[token.Token]token.Token{token.EQL: token.NEQ, token.NEQ: token.EQL, token.LSS: token.GEQ, token.GEQ: token.LSS, token.GTR: token.LEQ, token.LEQ: token.GTR}
+			if !isBin || flip[be.Op] == 0 {
+				okAll = false
+				break
+			}
+			leaves = append(leaves, &ast.BinaryExpr{X: be.X, Op: flip[be.Op], Y: be.Y, OpPos: be.OpPos})
+		}
+		if !okAll {
+			continue
+		}
+		w := &conjWrapper{node: is, leaves: leaves, block: u.BlockOf(is.Cond), at: is.Cond, pos: is.Cond.Pos(), hi: bs.End()}
+		for _, s2 := range rest {
+			if u.wrapperOfStmt[s2] == nil {
+				u.wrapperOfStmt[s2] = w
+			}
+		}
+		u.wrapperList = append(u.wrapperList, w)
+		u.earlyWrappers[is] = true
+		return // one early-return wrapper per block
+	}
+}
+
+// localAssign: an assignment / definition whose targets are local variables (or blank), or a `var` declaration.
+func (u *Unit) localAssign(st ast.Stmt) bool {
+	switch x := st.(type) {
+	case *ast.DeclStmt:
+		return true
+	case *ast.AssignStmt:
+		for _, l := range x.Lhs {
+			id, ok := ast.Unparen(l).(*ast.Ident)
+			if !ok {
+				return false
+			}
+			if id.Name == "_" {
+				continue
+			}
+			v, _ := u.Info.ObjectOf(id).(*types.Var)
+			if v == nil || v.IsField() || (v.Pkg() != nil && v.Parent() == v.Pkg().Scope()) {
+				return false
+			}
+		}
+		return true
+	}
+	return false
 }
 
 // wrapperBody: every statement is a failing `if` (used for nested wrappers).
@@ -1838,6 +1964,33 @@ func (g *GuardEngine) flatAtoms(fd *FuncDecl, onPath map[*FuncDecl]bool, depth i
 					if strings.Contains(cp.Shape, "<error>") && strings.Contains(cp.Shape, "nil") {
 						cp.Shape = "err"
 					}
+					// a value computed by a call at the call site and tested inside the helper (`h := f.Size(); ok(xs, h)`
+					// with `len(x) != h` in ok) is still a test of that call's result
+					for _, m := range leafTokenRe.FindAllStringSubmatch(ha.ShapeP, -1) {
+						var arg ast.Expr
+						if m[1] == "$recv" {
+							if sel, ok := ast.Unparen(c.Fun).(*ast.SelectorExpr); ok {
+								arg = sel.X
+							}
+						} else if i := int(m[1][1] - '0'); i >= 0 && i < len(c.Args) {
+							arg = c.Args[i]
+						}
+						if arg == nil {
+							continue
+						}
+						var calls []*ast.CallExpr
+						a.Unit.rootCalls(arg, c, map[ast.Node]bool{}, 0, &calls)
+						for _, rc := range calls {
+							if k := a.Unit.calleeKey(rc); k != "" && !containsStr(cp.Callees, k) {
+								cp.Callees = append(append([]string{}, cp.Callees...), k)
+							}
+						}
+					}
+					sort.Strings(cp.Callees)
+				}
+				// `if !ok(x) { fail }` with `func ok(x) bool { return c(x) }`: the helper's tail check is a guard here
+				if ha.Tail && !a.Tail {
+					cp.Tail = false
 				}
 				if !a.Must {
 					if cc := a.Unit.condContext(c); cc != "" {
